@@ -295,6 +295,7 @@ def check(facts, rep, tier, cfg):
     check_dropped_flow_senders(facts, rep, crate, "C02.R12")
     import adapter
     adapter.check_adapter(facts, rep, "C02.S8")
+    import_constructor_rule(facts, rep, "C02.S9", ['new_push', 'new_push_owned', 'new_push_vectored'])
     rep.rule("C02.S7", "who-may: the functions that touch the critical resources behind this property are those of the reference tree (flow table, closed flag, per-stream / datagram / outbound queues, last-pong timestamp, client id maps, shared TLS identity)")
     import whomay
     whomay.check(facts, rep, "C02.S7", "C02")
